@@ -303,7 +303,12 @@ func c10CheckScaled(v float64, binary bool, s string) *kit.Fail {
 	if !p.knownPref {
 		return kit.Failf("prefix-unknown", "%s: prefix %q is not a prefix of this class", what, p.prefix)
 	}
-	if v < 0 && !p.neg || v > 0 && p.neg {
+	// The sign of a mantissa that prints as all zeros is not specified ("-0.000"
+	// and "0.000" are both within half a unit of a tiny negative value): a
+	// benign change that drops the minus of a zero mantissa fired here (false
+	// alarm corrected, DESIGN.md 9.5).
+	zeroMant := p.mant != nil && p.mant.Sign() == 0
+	if !zeroMant && (v < 0 && !p.neg || v > 0 && p.neg) {
 		return kit.Failf("sign", "%s: sign lost or invented", what)
 	}
 	if len(p.ip) > 1 && p.ip[0] == '0' {
@@ -550,7 +555,7 @@ func c10CheckMulti(c c10Multi) *kit.Fail {
 		if !ok || !p.knownPref {
 			return kit.Failf("unparseable", "CommonScale(%v).Format(%v) = %q", vals, v, s)
 		}
-		if v < 0 && !p.neg || v > 0 && p.neg {
+		if zero := p.mant != nil && p.mant.Sign() == 0; !zero && (v < 0 && !p.neg || v > 0 && p.neg) {
 			return kit.Failf("sign", "CommonScale(%v).Format(%v) = %q", vals, v, s)
 		}
 		if f := c10Accuracy(p, new(big.Rat).SetFloat64(math.Abs(v)), fmt.Sprintf("CommonScale(%v, %v).Format(%v) = %q", vals, cls, v, s)); f != nil {
